@@ -226,9 +226,7 @@ def run(ctx, proofs):
         "graphs_rejected_by_validator": len(invalid),
         "paths_walked_by_oracle": paths,
         "open_statements": ["ssa_construction_valid_full: `for every CFG, into_ssa yields a graph accepted by ssa_check` (Cytron et al.'s theorem for this "
-                            "renaming scheme) is established per explored definition by running the verified validator, not for all graphs",
-                            "read_dominated_by_definition: dominance of each read by its unique definition follows from C14_paths_ok (every path to the read "
-                            "has assigned that version) but is not yet stated as its own theorem"],
+                            "renaming scheme) is established per explored definition by running the verified validator, not for all graphs"],
     })
     ctx.assumptions += ["the S-expression dump (harness/src/irdump.rs) and its OCaml reader render the implementation's graph faithfully",
                         "construction validity is per explored definition; soundness of the validator is for all graphs and all paths"]
